@@ -140,6 +140,11 @@ def step (s : St) (toks : List String) : St × String :=
   | ["add", a, sym, n, e] => match parseNat n, parseNat e with
       | some n, some e => resR (addLiquidity s a sym n e) s | _, _ => (s, "bad-op")
   | ["rm", a, sym, w] => match parseNat w with | some w => resR (removeLiquidity s a sym w) s | none => (s, "bad-op")
+  | ["rma", a, sym, w, asym] =>
+      -- `RemoveLiquidity` with an asymmetry: refused unless the asymmetry is 0
+      (match parseNat w, parseInt asym with
+       | some w, some y => if y != 0 then (s, "fail") else resR (removeLiquidity s a sym w) s
+       | _, _ => (s, "bad-op"))
   | ["rmu", a, sym, u] => match parseNat u with | some u => resR (removeLiquidityUnits s a sym u) s | none => (s, "bad-op")
   | ["swap", a, sent, recv, amt, mn] => match parseNat amt, parseNat mn with
       | some amt, some mn => (match swap s a sent recv amt mn with
